@@ -26,11 +26,12 @@ THEOREMS = ['Props.C19.' + t for t in [
     'block_mapping_keyerror_src1_tgt0', 'block_mapping_keyerror_src2_tgt0', 'block_mapping_keyerror_general',
     'incon_transfer_underground', 'incon_transfer_atmosphere_single', 'incon_average_value',
     'incon_transfer_atmosphere_percolumn', 'incon_transfer_total_partial',
-    'rocktype_transfer_spec', 'rocktype_transfer_identity']]
+    'rocktype_transfer_spec', 'rocktype_transfer_identity',
+    'generator_transfer_identity', 'generator_totals_identity']]
 LEVEL_TEXT = ('Proof: Lean theorems about an executable model of block_mapping/column_mapping/layer_mapping, '
               't2incon.transfer_from and the t2data generator/rock-type transfer: totality and existence in the source, '
               'nearest column / nearest layer / first layer below ground, identity on self, the 3x3 atmosphere table of the '
-              'initial-condition transfer, generator preservation on an identical geometry. block_mapping_total is PARTIAL: proved '
+              'initial-condition transfer (incl. what the average is), rock-type transfer, and item-for-item preservation of generators and totals on an identical geometry. block_mapping_total is PARTIAL: proved '
               'for 7 of the 9 atmosphere combinations; for source type 1 or 2 onto target type 0 the code raises KeyError (known '
               'finding, proved as witnesses and in general). Tied to /repo by correspondence runs on generated and shipped geometry pairs.')
 LEVEL_NOTE = ('Trusted: Lean kernel (+propext, Classical.choice, Quot.sound); scipy cKDTree.query is a parameter of the model constrained '
@@ -1011,6 +1012,7 @@ def run(ctx, scale=1.0, only_oracle=False):
                     res.count('incon:explicit-maps-for-known-defect-combination')
         # --- t2data transfer
         dat_jobs = []
+        ident_jobs = []
         if s.num_blocks <= 1500 and (npairs % 2 == 0 or base_kind in ('self',)):
             dat, top, bot = make_data(rng, s)
             rename, preserve = rng.random() < 0.5, rng.random() < 0.5
@@ -1019,6 +1021,7 @@ def run(ctx, scale=1.0, only_oracle=False):
                 v, _ = oracle_data_identity(kind, s, dat, top, bot, rename, preserve, res)
                 res.violations += v
                 res.count('data:identity-oracle')
+                ident_jobs.append((dat, top, bot))
             dres = real_data_transfer(dat, s, t, top, bot, rename, preserve, real)
             res.count('data:transfer_from:' + (dres['full'][0] if dres['full'][0] == 'ok' else dres['full'][1]))
             dat_jobs.append((dat, top, bot, rename, preserve, dres))
@@ -1081,6 +1084,25 @@ def run(ctx, scale=1.0, only_oracle=False):
                 if not same:
                     disagree('incon_transfer', f_inc, case_of(kind, s, t, {'explicit': explicit}), mo[0] if mo[0] == 'ok' else mo, r[0] if r[0] == 'ok' else r)
             ask(['inc'] + qt + gs + gt + incon_tokens(sinc) + dict_tokens(mp) + dict_tokens(cmp_), c_inc)
+        # --- model: hypotheses of generator_transfer_identity on the identical-geometry transfers
+        for dat, top, bot in ident_jobs:
+            try:
+                im, icm = quiet(s.block_mapping, clone(s), True)
+            except Exception:
+                continue
+            sgrid = [(b.name, b.volume) for b in dat.grid.blocklist]
+            toks = (['genhyp'] + gs + gens_tokens(dat) + dictq_tokens(sgrid) + dictq_tokens(sgrid)
+                    + list_tokens([1] * s.num_columns, str) + list_tokens(top) + list_tokens(bot) + dict_tokens(im) + dict_tokens(icm))
+
+            def c_genhyp(line):
+                a = line.split()
+                k = 'genIdentitySetting & genPlaced for every generator (generator_transfer_identity)'
+                hyp.setdefault(k, [0, 0])
+                hyp[k][1] += 1
+                hyp[k][0] += 1 if (a[0] == '1' and a[1] == a[2]) else 0
+                res.count('generators in identity transfers', int(a[2]))
+                res.count('generators in identity transfers satisfying genPlaced', int(a[1]))
+            ask(toks, c_genhyp)
         # --- model: generators, rock types, print block, incon dict
         for dat, top, bot, rename, preserve, dres in dat_jobs:
             if real[0] != 'ok':
